@@ -105,6 +105,13 @@ Theorem c07_runes_are_scalars : forall s, bytes s -> Forall valid_scalar (runes 
 Proof. exact runes_valid. Qed.
 Print Assumptions c07_runes_are_scalars.
 
+(* one step of the rune decoding both Format loops and [runes] use: one invalid byte reported as U+FFFD, or a scalar
+   value whose UTF-8 encoding is exactly the bytes consumed *)
+Theorem c07_rune_step : forall s c w, bytes s -> s <> [] -> decode s = (c, w) ->
+  (c = RuneError /\ w = 1%nat) \/ (valid_scalar c /\ encode c = firstn w s).
+Proof. exact rune_step. Qed.
+Print Assumptions c07_rune_step.
+
 (* ------------------------------------------------------------------------------------------------------------------ *)
 (* round trips: Format never panics, and Parse of its output (into any destination at least that long; the ToString form
    is dl = length e) gives back the string *)
@@ -138,6 +145,13 @@ Proof. exact sanitize_valid. Qed.
 Print Assumptions c07_sanitize_is_identity_on_valid_utf8.
 
 (* ------------------------------------------------------------------------------------------------------------------ *)
+(* what "well-formed digits" means below: [pus base maxv 0 ds = Some v] iff every byte of ds is a digit character
+   ('0'-'9', 'a'-'z', 'A'-'Z') of a digit below the base, v is the positional value, and v <= maxv *)
+Theorem c07_wellformed_digits : forall base maxv ds v, 1 <= base -> 0 <= maxv ->
+  (pus base maxv 0 ds = Some v <-> exists dv, digits_of base ds dv /\ value_from base 0 dv = v /\ v <= maxv).
+Proof. exact pus_wellformed. Qed.
+Print Assumptions c07_wellformed_digits.
+
 (* a well-formed escape between backslash-free text is replaced by what it denotes; the text is kept byte for byte *)
 Theorem c07_octal_parse_embedded_escape : forall dl pre ds post v, backslash_free pre -> backslash_free post ->
   length ds = 3%nat -> pus 8 255 0 ds = Some v -> (length (pre ++ (92%Z :: ds) ++ post) <= dl)%nat ->
